@@ -1,6 +1,7 @@
 package checks
 
 import (
+	"math/big"
 	"bytes"
 	"encoding/json"
 	"fmt"
@@ -66,6 +67,14 @@ var c13Values = []c13Value{
 	{"bytes", []byte{0, 1, 0xff}, true, false},
 	{"int-map-keys", map[any]any{int64(1): "one", int64(-2): []byte{2}}, true, false},
 	{"uint-above-int32", int64(1) << 40, true, true},
+	// integers outside int64 (COSE: plain integers down to -2^64 and up to 2^64-1, bignums beyond): value and sign are what was signed
+	// (unsigned integers above int64 are refused by the reader outright, which is safe; the largest one it reads is 2^63-1)
+	{"uint64-2^63-1", uint64(math.MaxInt64), true, false},
+	{"negative-int-just-below-int64", new(big.Int).Sub(big.NewInt(math.MinInt64), big.NewInt(1)), true, false},
+	{"negative-int--2^64", new(big.Int).Neg(new(big.Int).Lsh(big.NewInt(1), 64)), true, false},
+	{"negative-bignum", new(big.Int).Neg(new(big.Int).Lsh(big.NewInt(3), 70)), true, false},
+	{"positive-bignum", new(big.Int).Lsh(big.NewInt(3), 70), true, false},
+	{"list-with-negative-int-below-int64", []any{"a", new(big.Int).Neg(new(big.Int).Lsh(big.NewInt(1), 64))}, true, false},
 }
 
 func labelsFor(media string) []c13Label {
